@@ -20,9 +20,11 @@ CONSTANTS
     MissX, MissY, \* sets of sets of business days missing from the feature / price table
     YRanges,      \* set of <<first, last>> day of the price table
     Folds,        \* set of <<first, last>> day of the fold an episode is run in (<<0, 0>>: the default fold, everything)
-    Bounds        \* set of <<start, end>> bounds (0 = not given)
+    Bounds,       \* set of <<start, end>> bounds (0 = not given)
+    Carrier       \* "weekdays": index numbers are calendar days and only Monday..Friday carry rows | "all": index numbers are
+                  \* ranks of arbitrary (e.g. intraday) stamps and every one may carry a row
 
-BDays == {d \in 1..NDays : (d - 1) % 7 < 5}
+BDays == IF Carrier = "all" THEN 1..NDays ELSE {d \in 1..NDays : (d - 1) % 7 < 5}
 
 RECURSIVE SeqOfSet(_)
 SeqOfSet(S) == IF S = {} THEN <<>>
